@@ -30,7 +30,7 @@ var profC02 = ConcProfile{
 	Profile: Profile{
 		MaxBars: 8, MinBars: 1, Refresh: []string{"autort", "autort", "autoinj", "manual", "none"}, QLens: []int{-1, -1, 0, 1, 2, -2, -3},
 		Pop: 25, Queue: 15, Prio: true, Ext: 10, Text: 3, Rm: 25, NoPop: 15, AbortW: 2,
-		SyncDecors: 1, PlainDecors: 1, Wraps: true, Fillers: []string{"bar", "tag", "nop", "spinner"}, Notifier: 40, Listeners: 30,
+		SyncDecors: 1, PlainDecors: 1, Wraps: true, Fillers: []string{"bar", "tag", "nop", "spinner"}, Notifier: 40, Listeners: 30, Faults: 10,
 	},
 	MaxBlocks: 4, MaxBlockOps: 8, Pars: 2, CancelIn: 60, PerturbMax: 3, HoldPct: 40, SyncPct: 50, LateOps: true,
 }
@@ -154,6 +154,12 @@ func runC02(ci interface{}) Result {
 	}
 	if tr.CancelSeq != 0 {
 		r.Classes = append(r.Classes, "done-inside-history")
+	}
+	for _, e := range tr.Events {
+		if e.Point == "client.fillerr" || e.Point == "client.exterr" {
+			r.Classes = append(r.Classes, "render-fault")
+			break
+		}
 	}
 	if len(tr.LateAdds) > 0 {
 		r.Classes = append(r.Classes, "late-add")
